@@ -453,8 +453,8 @@ theorem SubWF.remove {log bc cc cl i u} (h : SubWF log bc cc cl i u) (hpc : u.pc
   · intro hc; simp at hc
   · exact h.bufLen
 
-theorem SubWF.new (log : List Entry) (cc cl : Bool) (i id h : Nat) :
-    SubWF log none cc cl i (Sub.new id h log.length) := by
+theorem SubWF.new (log : List Entry) (cc cl : Bool) (i id h c : Nat) :
+    SubWF log none cc cl i (Sub.new id h c log.length) := by
   constructor <;> simp [Sub.new, Sub.seq, pendOf, inLoop, bufferSize]
 
 /-! ### state-level preservation, by shape of the update -/
@@ -537,18 +537,63 @@ theorem WF.finish {s s' : State} {e : Entry} {pc : Nat} (h : WF s) (hbc : s.bc =
     rw [hbc] at this
     exact this.finish (by omega)
 
-theorem WF.newSub {s s' : State} {t id : Nat} (h : WF s) (hbc : s.bc = none)
-    (h1 : s'.subs = s.subs ++ [Sub.new id t s.log.length]) (h2 : s'.log = s.log)
-    (h3 : s'.bc = s.bc) (h4 : s'.closeCh = s.closeCh) (h5 : s'.closed = s.closed) : WF s' := by
+theorem mem_newSubs {s : State} {t j : Nat} {u : Sub} (h : u ∈ newSubs s t j) :
+    ∃ m, m < j ∧ u = Sub.new (s.currentID + m) (t + m) t s.log.length := by
+  simp only [newSubs, List.mem_map, List.mem_range] at h
+  obtain ⟨m, hm, rfl⟩ := h
+  exact ⟨m, hm, rfl⟩
+
+theorem getElem?_append_cases {α : Type} {l r : List α} {i : Nat} {b : α}
+    (h : (l ++ r)[i]? = some b) :
+    (i < l.length ∧ l[i]? = some b) ∨ (l.length ≤ i ∧ r[i - l.length]? = some b) := by
+  by_cases hi : i < l.length
+  · left; rw [List.getElem?_append_left hi] at h; exact ⟨hi, h⟩
+  · right
+    have hi' : l.length ≤ i := by omega
+    rw [List.getElem?_append_right hi'] at h
+    exact ⟨hi', h⟩
+
+theorem WF.newSubs {s s' : State} {t j : Nat} (h : WF s) (hbc : s.bc = none)
+    (h1 : s'.subs = s.subs ++ newSubs s t j) (h2 : s'.log = s.log)
+    (h3 : s'.bc = s.bc) (h4 : s.closeCh = true → s'.closeCh = true)
+    (h5 : s.closed = true → s'.closed = true) (h6 : s'.closeCh = true → s'.closed = true) :
+    WF s' := by
   constructor
   · rw [h2, h3]; exact h.bcLast
   · rw [h3, hbc]; intro e' pc' heq; simp at heq
+  · exact h6
+  · rw [h1, h2, h3]
+    intro i u hi
+    rcases getElem?_append_cases hi with ⟨_, hi'⟩ | ⟨_, hi'⟩
+    · exact (h.subs i u hi').mono h4 h5
+    · obtain ⟨m, _, rfl⟩ := mem_newSubs (List.mem_of_getElem? hi')
+      rw [hbc]; exact SubWF.new _ _ _ _ _ _ _
+
+/-- The same update applied to every subscriber, leaving the context alone. -/
+theorem WF.mapSubs {s s' : State} {f : Sub → Sub} (h : WF s)
+    (hf : ∀ i u, SubWF s.log s.bc s.closeCh s.closed i u → SubWF s.log s.bc s.closeCh s.closed i (f u))
+    (h1 : s'.subs = s.subs.map f) (h2 : s'.log = s.log) (h3 : s'.bc = s.bc)
+    (h4 : s'.closeCh = s.closeCh) (h5 : s'.closed = s.closed) : WF s' := by
+  constructor
+  · rw [h2, h3]; exact h.bcLast
+  · rw [h1, h3]; simpa using h.bcPc
   · rw [h4, h5]; exact h.chClosed
   · rw [h1, h2, h3, h4, h5]
     intro i u hi
-    rcases getElem?_append_one_cases hi with ⟨_, rfl⟩ | ⟨_, hi'⟩
-    · rw [hbc]; exact SubWF.new _ _ _ _ _ _
-    · exact h.subs i u hi'
+    rw [List.getElem?_map] at hi
+    cases hu : s.subs[i]? with
+    | none => simp [hu] at hi
+    | some w =>
+      simp [hu] at hi
+      subst hi
+      exact hf i w (h.subs i w hu)
+
+theorem SubWF.cancelSub {log bc cc cl i u} (c : Nat) (h : SubWF log bc cc cl i u) :
+    SubWF log bc cc cl i (cancelSub c u) := by
+  unfold Kit.Broadcaster.cancelSub
+  split
+  · exact h.cancel
+  · exact h
 
 theorem wf_init : WF init := by
   constructor <;> simp [init]
@@ -683,21 +728,25 @@ theorem wf_step {v s l s'} (h : WF s) (hid : IdInv s) (hs : step v s l = some s'
     · split at hs <;> simp at hs
       subst hs; exact h.frame rfl rfl rfl rfl rfl
   case subCall => simp at hs; subst hs; exact h.frame rfl rfl rfl rfl rfl
-  case subAcquire k =>
+  case subAcquire k j =>
     split at hs
-    · next t hbc hk =>
-      split at hs <;> simp at hs <;> subst hs
-      · exact h.frame rfl rfl rfl rfl rfl
-      · exact h.newSub hbc rfl rfl rfl rfl rfl
+    · next t n hbc hk =>
+      split at hs
+      · split at hs <;> simp at hs
+        subst hs; exact h.frame rfl rfl rfl rfl rfl
+      · split at hs
+        · simp at hs; subst hs
+          exact h.newSubs hbc rfl rfl rfl (fun x => x) (fun x => x) h.chClosed
+        · split at hs <;> simp at hs
+          subst hs
+          exact h.newSubs hbc rfl rfl rfl (fun x => x) (fun _ => rfl) (fun _ => rfl)
     · simp at hs
   case subReturn t =>
     split at hs <;> simp at hs
     subst hs; exact h.frame rfl rfl rfl rfl rfl
-  case cancel i =>
-    split at hs <;> simp at hs
-    next u hu =>
-    subst hs
-    exact h.setSub (h.subs i u hu).cancel rfl rfl rfl rfl rfl
+  case cancel c =>
+    simp at hs; subst hs
+    exact h.mapSubs (fun _ _ hu => hu.cancelSub c) rfl rfl rfl rfl rfl
   case fwdTake i =>
     split at hs
     · next u hu =>
@@ -770,6 +819,11 @@ theorem allDone_iff (s : State) : allDone s = true ↔ AllDone s := by
     obtain ⟨i, hi, rfl⟩ := List.getElem_of_mem hu
     exact h i _ (List.getElem?_eq_getElem hi)
 
+@[simp] theorem cancelSub_pc (c : Nat) (u : Sub) : (cancelSub c u).pc = u.pc := by
+  unfold cancelSub; split <;> rfl
+@[simp] theorem cancelSub_id (c : Nat) (u : Sub) : (cancelSub c u).id = u.id := by
+  unfold cancelSub; split <;> rfl
+
 theorem done_step {v s l s'} (hw : WF s) (hid : IdInv s) (hci : CInv v s)
     (hs : step v s l = some s')
     (h : 0 < s.closeReturned → s.closed = true ∧ AllDone s) :
@@ -784,6 +838,32 @@ theorem done_step {v s l s'} (hw : WF s) (hid : IdInv s) (hci : CInv v s)
     rcases getElem?_set_cases hk with ⟨rfl, rfl⟩ | ⟨_, hk'⟩
     · rfl
     · exact hd _ _ hk'
+  case cancel c =>
+    unfold_step hs; simp at hs; subst hs
+    intro hr
+    obtain ⟨hc, hd⟩ := h hr
+    refine ⟨hc, ?_⟩
+    intro k w hk
+    simp only [List.getElem?_map] at hk
+    cases hu : s.subs[k]? with
+    | none => simp [hu] at hk
+    | some u => simp [hu] at hk; subst hk; simpa using hd k u hu
+  case subAcquire k j =>
+    unfold_step hs
+    intro hr
+    split at hs
+    · next t n hbc hk =>
+      split at hs
+      · split at hs <;> simp at hs
+        subst hs; exact h hr
+      · next hcl =>
+        have hr0 : 0 < s.closeReturned := by
+          split at hs
+          · simp at hs; subst hs; exact hr
+          · split at hs <;> simp at hs
+            subst hs; exact hr
+        exact absurd (h hr0).1 hcl
+    · simp at hs
   all_goals unfold_step hs <;> (repeat' split at hs) <;> (try simp at hs) <;> (try subst hs) <;>
     simp only [AllDone] at h ⊢ <;> intro hr
   all_goals try (
@@ -813,17 +893,46 @@ theorem idinv_step {v s l s'} (hw : WF s) (hid : IdInv s) (hs : step v s l = som
     rcases getElem?_set_cases hk with ⟨rfl, rfl⟩ | ⟨_, hk'⟩
     · exact hid.ids _ u hu
     · exact hid.ids _ _ hk'
-  case subAcquire k =>
+  case cancel c =>
+    unfold_step hs; simp at hs; subst hs
+    refine ⟨by simpa using hid.cur, ?_⟩
+    intro k w hk
+    simp only [List.getElem?_map] at hk
+    cases hu : s.subs[k]? with
+    | none => simp [hu] at hk
+    | some u => simp [hu] at hk; subst hk; simpa using hid.ids k u hu
+  case subAcquire k j =>
+    have hnew : ∀ t, IdInv { s with subs := s.subs ++ newSubs s t j, currentID := s.currentID + j } →
+        True := fun _ _ => trivial
+    have key : ∀ t (i : Nat) (w : Sub), (s.subs ++ newSubs s t j)[i]? = some w → w.id = i := by
+      intro t i w hi
+      rcases getElem?_append_cases hi with ⟨_, hi'⟩ | ⟨hle, hi'⟩
+      · exact hid.ids _ _ hi'
+      · simp only [newSubs, List.getElem?_map] at hi'
+        cases hm : (List.range j)[i - s.subs.length]? with
+        | none => simp [hm] at hi'
+        | some m =>
+          have hmv : m = i - s.subs.length := by
+            have := List.getElem?_eq_some_iff.mp hm
+            obtain ⟨h1, h2⟩ := this
+            simpa using h2.symm
+          simp [hm] at hi'
+          subst hi'
+          simp [Sub.new, hid.cur]; omega
+    have hlen : ∀ t, (s.subs ++ newSubs s t j).length = s.subs.length + j := by
+      intro t; simp [newSubs]
     unfold_step hs
     split at hs
-    · next t hbc hk =>
-      split at hs <;> simp at hs <;> subst hs
-      · exact ⟨hid.cur, hid.ids⟩
-      · refine ⟨by simp [hid.cur], ?_⟩
-        intro j w hj
-        rcases getElem?_append_one_cases hj with ⟨rfl, rfl⟩ | ⟨_, hj'⟩
-        · simp [Sub.new, hid.cur]
-        · exact hid.ids _ _ hj'
+    · next t n hbc hk =>
+      split at hs
+      · split at hs <;> simp at hs
+        subst hs; exact ⟨hid.cur, hid.ids⟩
+      · split at hs
+        · simp at hs; subst hs
+          exact ⟨by simp [hlen, hid.cur], key t⟩
+        · split at hs <;> simp at hs
+          subst hs
+          exact ⟨by simp [hlen, hid.cur], key t⟩
     · simp at hs
   all_goals
     unfold_step hs <;> (repeat' split at hs) <;> (try simp at hs) <;> (try subst hs) <;>
